@@ -1,13 +1,19 @@
-(* C18 — matrix card (src/matrix_card.rs), geometric part: cell lookup, printing order, coordinate
-   generation, round bound.  Only statements; every proof is `exact` of a lemma from proofs/.
+(* C18 — matrix card (src/matrix_card.rs): cell lookup, printing order, coordinate generation, round
+   bound (geometric part) and the proof value, the server-side check, the honest client and the
+   binding of the proof to the digits (cryptographic part).
+   Only statements; every proof is `exact` of a lemma from proofs/.
    Models: model/MatrixCard.v (from_data, get_number_at_coordinates, printer_cells / printer_strings,
            generate_coordinates, get_matrix_coordinates, verifier_coordinates);
+           model/MatrixProof.v (MatrixCardVerifier::new / enter_value / into_proof,
+           verify_matrix_card_hash; the honest-client scenario);  model/Rc4.v (Rc4);
            model/Legacy.v (the pinned v0.7.0 code before the two repairs, for the refutations only).
-   Spec:   spec/Select.v (selection without replacement).
+   Spec:   spec/Select.v (selection without replacement), spec/Rc4.v (textbook RC4),
+           spec/MatrixProof.v (matrix_key = MD5(seed LE | K), matrix_proof = HMAC-SHA1 over RC4(digits)).
    Domain: 1 <= digit_count (digit_count = 0 makes to_printer panic: known finding F5),
            1 <= width * height <= 255, 1 <= challenge_count <= width * height. *)
-From WS Require Import lib.Bytes lib.Res Consts model.Arr model.MatrixCard model.Legacy spec.Select
-  proofs.Arr proofs.MatrixCard.
+From WS Require Import lib.Bytes lib.Res lib.Md5 lib.Hmac Consts model.Arr model.Rc4 model.MatrixCard
+  model.MatrixProof model.Legacy spec.Select spec.Rc4 spec.MatrixProof
+  proofs.Arr proofs.Rc4 proofs.MatrixCard proofs.MatrixProof.
 From Coq Require Import Permutation.
 Local Open Scope N_scope.
 
@@ -102,6 +108,78 @@ Theorem C18_round_v070_refuted :
     get_matrix_coordinates 2 4 3 cs 2 = Ok None.
 Proof. exact round_v070_refuted. Qed.
 
+(* ================================================================ cryptographic part ==== *)
+
+(* The proof of an entered digit sequence ds: HMAC-SHA1 keyed by MD5(seed as 8 LE bytes | K) over the
+   textbook-RC4 encryption (same key, keystream offset 0) of ds.  MatrixCardVerifier::new does not
+   panic; entering the digits one enter_value call at a time, cell by cell, or in any other
+   partition [chunks] gives the same verifier state, hence the same proof. *)
+Theorem C18_proof_value : forall count h seed w K ds,
+  1 <= w * h <= 255 -> 1 <= count <= w * h -> seed < 2 ^ 64 -> bytesn 40 K -> bytes ds ->
+  exists v v', verifier_new count h seed w K = Ok v /\
+    enter_values v ds = Ok v' /\
+    into_proof v' = hmac_sha1 (md5 (le64 seed ++ K)) (rc4_crypt (md5 (le64 seed ++ K)) 0 ds) /\
+    into_proof v' = matrix_proof seed K ds /\
+    (forall chunks, concat chunks = ds -> enter_chunks v chunks = Ok v') /\
+    client_proof_of count h seed w K ds = Ok (matrix_proof seed K ds) /\
+    bytesn 20 (into_proof v').
+Proof. intros count h seed w K ds Hwh Hc Hs _ _. exact (proof_value count h seed w K ds Hwh Hc Hs). Qed.
+
+(* verify_matrix_card_hash never panics (in particular the unwrap of get_matrix_coordinates and the
+   slice in get_number_at_coordinates) and returns true exactly when the presented proof is the proof
+   of the digits of the cells printed at the challenged coordinates, in round order: [picked] lists,
+   for every round, the printed cell number cs[round] = y * w + x (C18_round, C18_lookup). *)
+Theorem C18_verify_iff : forall d w h data count seed K p,
+  1 <= d -> 1 <= w * h <= 255 -> length data = N.to_nat (d * h * w) ->
+  1 <= count <= w * h -> seed < 2 ^ 64 -> bytes data -> bytesn 40 K -> bytesn 20 p ->
+  exists c cells cs picked b,
+    from_data d h w data = Some c /\ printer_cells c = Ok cells /\
+    generate_coordinates w h count seed = Ok cs /\
+    Forall2 (fun co cell => nth_error cells (N.to_nat co) = Some cell) cs picked /\
+    verify_matrix_card_hash c count seed K p = Ok b /\
+    (b = true <-> p = matrix_proof seed K (concat picked)).
+Proof.
+  intros d w h data count seed K p Hd Hwh Hl Hc Hs _ _ _. exact (verify_iff d w h data count seed K p Hd Hwh Hl Hc Hs).
+Qed.
+
+(* A client with a fresh verifier over the same (count, height, seed, width, K) that, round by
+   round, enters the digits of the cell printed at the coordinates it is asked for, produces a proof
+   that the server-side check accepts. *)
+Theorem C18_honest_client : forall d w h data count seed K,
+  1 <= d -> 1 <= w * h <= 255 -> length data = N.to_nat (d * h * w) ->
+  1 <= count <= w * h -> seed < 2 ^ 64 -> bytes data -> bytesn 40 K ->
+  exists c cells p,
+    from_data d h w data = Some c /\ printer_cells c = Ok cells /\
+    honest_client cells count h seed w K = Ok p /\
+    verify_matrix_card_hash c count seed K p = Ok true.
+Proof.
+  intros d w h data count seed K Hd Hwh Hl Hc Hs _ _. exact (honest_client_accepted d w h data count seed K Hd Hwh Hl Hc Hs).
+Qed.
+
+(* Binding form of "any other digit sequence is rejected" (HMAC-SHA1 is not injective, so refusal
+   cannot be unconditional): a client that enters ANY digit sequence ds (any length) other than the
+   printed digits gets a proof p'; the server refuses p', or else the two RC4-encrypted messages
+   are different byte strings (RC4 with one keystream is injective) with the same HMAC-SHA1 under
+   the same key: an explicit collision. *)
+Theorem C18_other_digits_rejected : forall d w h data count seed K ds,
+  1 <= d -> 1 <= w * h <= 255 -> length data = N.to_nat (d * h * w) ->
+  1 <= count <= w * h -> seed < 2 ^ 64 -> bytes data -> bytesn 40 K -> bytes ds ->
+  exists c cells cs picked p',
+    from_data d h w data = Some c /\ printer_cells c = Ok cells /\
+    generate_coordinates w h count seed = Ok cs /\
+    Forall2 (fun co cell => nth_error cells (N.to_nat co) = Some cell) cs picked /\
+    client_proof_of count h seed w K ds = Ok p' /\
+    (ds <> concat picked ->
+       verify_matrix_card_hash c count seed K p' = Ok false \/
+       exists m m', m <> m' /\ hmac_sha1 (matrix_key seed K) m = hmac_sha1 (matrix_key seed K) m').
+Proof.
+  intros d w h data count seed K ds Hd Hwh Hl Hc Hs _ _ _. exact (other_digits_rejected d w h data count seed K ds Hd Hwh Hl Hc Hs).
+Qed.
+
+(* RC4 encryption under one key and offset is injective (used above) *)
+Theorem C18_rc4_injective : forall k off a b, rc4_crypt k off a = rc4_crypt k off b -> a = b.
+Proof. exact rc4_crypt_inj. Qed.
+
 (* ---- the coordinate vectors of the two tests at the end of src/matrix_card.rs ---- *)
 Example C18_test_real_3_3_5_client : verifier_coordinates 1 10 0 8 0 = Ok (Some (0, 0)).
 Proof. vm_compute. reflexivity. Qed.
@@ -109,6 +187,38 @@ Example C18_test_multiple_challenges :
   map (verifier_coordinates 3 10 14574472801782155463 8) [0; 1; 2; 3] =
   [Ok (Some (7, 2)); Ok (Some (0, 0)); Ok (Some (4, 1)); Ok None].
 Proof. vm_compute. reflexivity. Qed.
+(* ---- the proof vectors of the same two tests (real 3.3.5 client), evaluated on the model ---- *)
+Definition test_key_1 : list N :=
+  [46; 167; 52; 11; 179; 156; 220; 26; 87; 175; 253; 222; 115; 66; 233; 19; 167; 238; 19; 84;
+   138; 175; 136; 247; 241; 239; 119; 140; 15; 202; 125; 85; 137; 178; 159; 127; 134; 58; 46; 126].
+Definition test_key_2 : list N :=
+  [102; 94; 221; 27; 188; 90; 39; 16; 200; 68; 41; 48; 224; 105; 1; 102; 18; 212; 59; 119;
+   207; 76; 237; 37; 240; 225; 148; 192; 63; 31; 65; 98; 142; 197; 217; 88; 34; 85; 72; 158].
+Definition test_proof_1 : list N :=
+  [241; 196; 101; 128; 135; 11; 160; 192; 252; 108; 209; 242; 49; 157; 119; 131; 135; 191; 181; 153].
+Definition test_proof_2 : list N :=
+  [193; 75; 79; 43; 182; 117; 141; 123; 100; 155; 172; 137; 139; 67; 215; 195; 187; 55; 30; 231].
+
+Example C18_test_real_3_3_5_client_proof :
+  client_proof_of 1 10 0 8 test_key_1 [0; 0] = Ok test_proof_1 /\
+  matrix_proof 0 test_key_1 [0; 0] = test_proof_1.
+Proof. vm_compute. split; reflexivity. Qed.
+Example C18_test_multiple_challenges_proof :
+  client_proof_of 3 10 14574472801782155463 8 test_key_2 [0; 0; 0; 0; 0; 0] = Ok test_proof_2 /\
+  matrix_proof 14574472801782155463 test_key_2 [0; 0; 0; 0; 0; 0] = test_proof_2.
+Proof. vm_compute. split; reflexivity. Qed.
+(* the server side on an all-zero 8 x 10 card with two digits per cell accepts that proof, refuses a
+   flipped one, and the honest client reading the printed card produces it (non-vacuity of
+   C18_verify_iff / C18_honest_client) *)
+Example C18_test_verify :
+  let c := {| c_digits := 2; c_width := 8; c_height := 10; c_data := repeat 0 160 |} in
+  verify_matrix_card_hash c 3 14574472801782155463 test_key_2 test_proof_2 = Ok true /\
+  verify_matrix_card_hash c 3 14574472801782155463 test_key_2 (flip_bit 5 test_proof_2) = Ok false /\
+  verify_matrix_card_hash c 2 14574472801782155463 test_key_2 test_proof_2 = Ok false /\
+  (match printer_cells c with
+   | Ok cells => honest_client cells 3 10 14574472801782155463 8 test_key_2
+   | _ => Panic end) = Ok test_proof_2.
+Proof. vm_compute. repeat split. Qed.
 (* outside the domain the model panics like the code: 16 x 16 cells (u8 overflow, debug build),
    an empty card, more challenges than cells (count reaches 0: division by zero) *)
 Example C18_outside_domain :
@@ -124,3 +234,8 @@ Print Assumptions C18_coordinates_all.
 Print Assumptions C18_round.
 Print Assumptions C18_lookup_v070_refuted.
 Print Assumptions C18_round_v070_refuted.
+Print Assumptions C18_proof_value.
+Print Assumptions C18_verify_iff.
+Print Assumptions C18_honest_client.
+Print Assumptions C18_other_digits_rejected.
+Print Assumptions C18_rc4_injective.
